@@ -423,7 +423,13 @@ struct Plan {
     tablets_ext: bool,
     rate_limit_ext: bool,
     sharded: bool,
+    /// Field-aware mutation of a PREPARED answer: the partition-key index list of the
+    /// compound-key statement (normally [0, 1, 2]) replaced by a seeded list.
+    pk_fuzz: Option<Vec<u16>>,
 }
+
+/// Prepared statement with a three-column partition key (and the marker bind).
+const CK_Q: &str = "SELECT v FROM ks1.ck WHERE a = ? AND b = ? AND c = ? AND m = ?";
 
 fn draw_mutation() -> Mutation {
     match tape::weighted("c08:mutation", &[3, 3, 4, 4, 1, 1, 1, 2, 1, 1, 1]) {
@@ -541,6 +547,7 @@ pub fn run(req: &RunRequest) -> Value {
                 tablets_ext: true,
                 rate_limit_ext: true,
                 sharded: true,
+                pk_fuzz: None,
             }
         } else {
             let fault_free = tape::chance("c08:fault_free", 1, 10);
@@ -572,6 +579,12 @@ pub fn run(req: &RunRequest) -> Value {
                 tablets_ext: tape::chance("c08:tablets", 1, 2),
                 rate_limit_ext: tape::chance("c08:ratelimit", 1, 2),
                 sharded: tape::chance("c08:sharded", 1, 2),
+                pk_fuzz: if custom && tape::chance("c08:pk_fuzz", 1, 2) {
+                    const IDX: [u16; 7] = [0, 1, 2, 3, 4, 7, 65535];
+                    Some((0..tape::choose("c08:pk_fuzz_len", 6)).map(|_| IDX[tape::choose("c08:pk_fuzz_idx", IDX.len() as u64) as usize]).collect())
+                } else {
+                    None
+                },
             }
         };
         let mut cluster = Cluster::new("c08");
@@ -635,6 +648,27 @@ pub fn run(req: &RunRequest) -> Value {
             schema_version: 0,
             id_version: 0,
         });
+        cluster.keyspaces[0].tables.push(TableDef {
+            name: "ck".into(),
+            partitioner: None,
+        });
+        cluster.catalog.push(StmtDef {
+            shape: CK_Q.into(),
+            ks: "ks1".into(),
+            table: "ck".into(),
+            kind: StmtKind::Select,
+            bind_cols: vec![
+                col("ks1", "ck", "a", CType::BigInt),
+                col("ks1", "ck", "b", CType::BigInt),
+                col("ks1", "ck", "c", CType::BigInt),
+                col("ks1", "ck", "m", CType::BigInt),
+            ],
+            pk_indexes: plan.pk_fuzz.clone().unwrap_or_else(|| vec![0, 1, 2]),
+            result_cols: vec![col("ks1", "ck", "v", CType::BigInt)],
+            marker_bind: Some(3),
+            schema_version: 0,
+            id_version: 0,
+        });
         cluster.features.auth = plan.auth;
         cluster.features.metadata_id_ext = plan.metadata_id_ext;
         cluster.features.tablets_ext = plan.tablets_ext;
@@ -672,7 +706,7 @@ const STEP_BOUND: Duration = Duration::from_secs(120);
 /// length field of the previous frame) the caller legitimately keeps waiting, which
 /// is not a decoding failure. A decoder that does not terminate would show up as
 /// the wall-clock kill of the child instead.
-const UNTIMED_STEPS: [&str; 6] = ["session", "prepare", "prepare_insert", "prepare_tablets", "use", "refresh"];
+const UNTIMED_STEPS: [&str; 7] = ["session", "prepare", "prepare_insert", "prepare_tablets", "prepare_ck", "use", "refresh"];
 
 async fn step<T>(
     out: &mut Outcome,
@@ -998,6 +1032,25 @@ async fn main(plan: Plan) -> Outcome {
                         ),
                     },
                     Ok(_) => out.violation("c08.roundtrip", format!("scripted error {i} decoded as success")),
+                }
+            }
+        }
+    }
+    // S10: a prepared statement with a compound partition key (token computed from the
+    // partition-key indexes the node announced).
+    if let Some(Ok(p)) = step(&mut out, "prepare_ck", session.prepare(CK_Q)).await {
+        for k in 0..2i64 {
+            m += 1;
+            let r = step(&mut out, "execute_ck", session.execute_unpaged(&p, (k, k + 1, k + 2, m as i64))).await;
+            if clean {
+                match r {
+                    Some(Ok(qr)) => {
+                        if let Err(e) = client::check_marker_rows(qr, m) {
+                            out.violation("c08.roundtrip", e);
+                        }
+                    }
+                    Some(Err(e)) => out.violation("c08.roundtrip", format!("clean compound-key execute failed: {e}")),
+                    None => {}
                 }
             }
         }
